@@ -112,7 +112,9 @@ Section Step.
       first [ solve [apply phase_scan_txeff; intros ?; cbn; first [left; reflexivity | right; left; reflexivity | right; right; left; reflexivity | right; right; right; reflexivity]]
             | apply gate_txeff
             | apply Forall_app_2; [apply create_props_txeff|repeat constructor]
-            | repeat constructor ].
+            | solve [repeat constructor]
+            | match goal with E : scan_props _ _ _ _ = Some (inr (_, _)) |- _ =>
+                apply scan_inr in E; destruct E as (_ & E & _); constructor; [cbn; eauto|constructor] end ].
   Qed.
 
   Lemma txeff_vcalm (w : world) e : txeff w e -> vcalm e.
